@@ -1,5 +1,6 @@
 import NitroVerif.Lemmas.Paths
 import NitroVerif.Lemmas.PathsText
+import NitroVerif.Lemmas.PathToTs
 /-!
 # C20 — relative and resolved paths are mutually inverse and land on the intended file
 
@@ -243,3 +244,40 @@ example : AbsNoClimb (components "/p/../q/./f.graphql") ∧ AbsNoClimb (componen
   ⟨⟨_, rfl, by decide⟩, ⟨_, rfl, by decide⟩⟩
 
 end NitroVerif.Paths
+
+/-! ### the import specifier's file name (`path_to_ts`) resolves back to the schema declaration file -/
+namespace NitroVerif.PathToTs
+
+/-- every entry of the TRANSLATED table maps a TypeScript extension to a JavaScript extension under which
+    TypeScript looks that very extension up (re-checked by the kernel whenever the source table changes) -/
+theorem table_ok : ∀ p ∈ Gen.tsToJs, p.2 ∈ jsExts ∧ p.1 ∈ tsExtsFor p.2 := by decide
+
+/-- For every file name that ends in one of the table's TypeScript extensions (any stem, any length), the
+    name `path_to_ts` writes into the import specifier is one for which TypeScript's module resolution tries
+    the original file: the specifier lands on the schema declaration file. -/
+theorem path_to_ts_resolves (name : List Char) (h : ∃ p ∈ Gen.tsToJs, ∃ stem, name = stem ++ p.1) :
+    name ∈ tsCandidates (pathToTs name) := by
+  obtain ⟨p, hp, stem, hn, hr⟩ := pathToTsWith_spec Gen.tsToJs name h
+  obtain ⟨hj, ht⟩ := table_ok p hp
+  unfold pathToTs tsCandidates
+  rw [hr, List.mem_flatMap]
+  refine ⟨p.2, hj, ?_⟩
+  rw [stripSuffix_append, List.mem_map]
+  exact ⟨p.1, ht, hn.symm⟩
+
+/-- a name with none of the extensions is left unchanged (the specifier then names the file itself) -/
+theorem path_to_ts_other (name : List Char) (h : ∀ p ∈ Gen.tsToJs, stripSuffix name p.1 = none) :
+    pathToTs name = name := by
+  unfold pathToTs
+  generalize Gen.tsToJs = tbl at h
+  induction tbl with
+  | nil => rfl
+  | cons q rest ih =>
+    obtain ⟨ts, js⟩ := q
+    unfold pathToTsWith
+    rw [h (ts, js) (by simp)]
+    exact ih (fun p hp => h p (by simp [hp]))
+
+example : pathToTs "schema.d.ts".toList = "schema.js".toList ∧ pathToTs "types.mts".toList = "types.mjs".toList := by decide
+
+end NitroVerif.PathToTs
